@@ -161,6 +161,25 @@ def listOp (abs : Bool) (e : List Text) : PmOp → List Text
   | .sapp p => listSymAppend abs e (segs p)
   | .norm => nsegsOf abs e
 
+/-- the readings of a segment list: literally, or with a leading `.` taken as the shield of what
+follows it (the text `/./` after an authority is both the list `[".", ""]` and the shielded `[""]`) -/
+def readings (e : List Text) : List (List Text) :=
+  match e with
+  | d :: r => if d = segDot && needsShieldHead r then [e, r] else [e]
+  | [] => [e]
+
+/-- symbolic append is a sequence of symbolic pushes; each push may read the text left by the
+previous one either way, so the acceptable results are those of every consistent re-reading -/
+def listSymAppendCands (abs : Bool) (e : List Text) (ss : List Text) : List (List Text) :=
+  let step (cands : List (List Text × Bool)) (s : Text) : List (List Text × Bool) :=
+    (cands.flatMap fun st => (readings st.1).map fun l => listSymPush abs l s).eraseDups
+  let rs := ss.foldl step [(e, false)]
+  rs.map fun r => if r.2 && !r.1.isEmpty then r.1 ++ [[]] else r.1
+
+def listOpCands (abs : Bool) (e : List Text) : PmOp → List (List Text)
+  | .sapp p => listSymAppendCands abs e (segs p)
+  | op => [listOp abs e op]
+
 /-- `post` realises list `e` literally, behind a shield, or read through `alist` -/
 def realisesEither (post : Text) (e : List Text) : Bool :=
   realises post e || alist post == e
@@ -169,13 +188,13 @@ def realisesEither (post : Text) (e : List Text) : Bool :=
 def pmStep (hasAuth : Bool) (pre post : Text) (op : PmOp) : Option String :=
   let abs := isAbs pre || (hasAuth && true)
   let absPre := isAbs pre
-  let lit := listOp (absPre || hasAuth) (segs pre) op
-  let abst := listOp (absPre || hasAuth) (alist pre) op
+  let lit := listOpCands (absPre || hasAuth) (segs pre) op
+  let abst := listOpCands (absPre || hasAuth) (alist pre) op
   let _ := abs
   firstFail [
     check (if hasAuth then (post.isEmpty || isAbs post) else (isAbs post == absPre))
       "path changed between absolute and relative",
-    check (realisesEither post lit || realisesEither post abst)
+    check ((lit ++ abst).any (realisesEither post))
       "segment sequence after the edit is not the expected one"]
 
 /-! ## C11 -/
